@@ -118,6 +118,16 @@ def degenerate_shapes():
     add([["cond", [[C, E]]], ["cond", [[C, E], [C, E]]]])
     add([["ifchain", [[C, E], [C, E], [C, E]], None]])
     add([["assert", [C]], ["assert", [C, C, C]]])
+    # blocks that end with a store followed only by comments (arm of a conditional, end of a loop body, end of the program), and
+    # comments in every other position around a store/load pair
+    V = [{"id": "v", "t": "u", "kind": "sv", "slot": None}]
+    K = ["comment", "note", None]
+    S, Ld = ["store", "v", ["int", 5]], ["pop", ["load", "v"]]
+    for tail in ([S, K], [S, K, K], [K, S], [S, K, Ld], [S, K, K, Ld], [S, Ld, K]):
+        add([["if", C, ["seq", tail], None], S, Ld], V)
+        add([["while", C, ["seq", tail + [["break"]]]], S, Ld], V)
+        add([["while", C, ["seq", [["if", C, ["break"], None]] + tail]], S, Ld], V)
+        add([S, Ld] + tail, V)
     return shapes
 
 
@@ -289,7 +299,7 @@ def run_shard(shard):
                     if v < 4:
                         continue
                     rr = {"mode": "app", "vars": [], "main": [["callstmt", 0, []]], "final": ["int", 1],
-                          "subs": [{"name": "d", "params": [], "ret": "n", "rec": False, "locals": [], "body": r["main"], "retexpr": None}]}
+                          "subs": [{"name": "d", "params": [], "ret": "n", "rec": False, "locals": r.get("vars", []), "body": r["main"], "retexpr": None}]}
                 else:
                     rr = r
                 if any(n[0] == "log" for n in recipes.all_nodes(rr)) and v < 5:
